@@ -820,7 +820,10 @@ namespace ip {
 				m_bytes_in_flight -= acked_bytes;
 
 				// potentially resend packets
-				while (!m_outgoing_packets.empty()
+				// each packet waiting at this point is re-sent at most once per ACK
+				// (a re-sent packet may be dropped again synchronously)
+				std::size_t resend_budget = m_outgoing_packets.size();
+				while (resend_budget-- > 0 && !m_outgoing_packets.empty()
 					&& m_bytes_in_flight
 						+ int(m_outgoing_packets.front().buffer.size()) <= m_cwnd)
 				{
